@@ -546,6 +546,14 @@ func C17_FlagPairs() {
 			a = x
 		}
 	}
+	// the verb applies to the argument's kind (a verb that does not apply gives
+	// the bad-verb text, whose recorded deviation F8a C17_Directive covers; %v is F8b)
+	applies := map[byte]string{'i': "dboOxXcqU", 'f': "eEfFgG", 's': "sqxX", 'y': "sqxX", 'b': "t"}[kindLetter(a)]
+	ok := false
+	for k := 0; k < len(applies); k++ {
+		ok = vf.Or(ok, v == applies[k])
+	}
+	vf.Assume(ok)
 	shape := vf.Choice("shape", 3)
 	var dir []byte
 	var objs []tengo.Object
